@@ -86,12 +86,14 @@ SumUp(tuples, loc) == SumUpFrom(tuples, loc, 1, 0)
 \* 2 * 16384 * S * (1/2 + 1/2 * Sum)
 Bnd(tuples, loc, S) == S * F14 + S * SumUp(tuples, loc)
 
-\* interval [lo,hi]/S within  m +- bound   (bnd = Bnd(..); nt = number of tuples: coarse guard, no overflow)
-CoordOK(lo, hi, m, S, bnd, nt) ==
-    /\ lo - m * S <= S * (nt + 1)
-    /\ m * S - hi <= S * (nt + 1)
-    /\ 2 * F14 * (lo - m * S) <= bnd
-    /\ 2 * F14 * (m * S - hi) <= bnd
+\* interval [lo,hi]/S within  [mlo,mhi]/S +- bound   (bnd = Bnd(..); nt = number of tuples: coarse guard, no overflow)
+CoordOKS(lo, hi, mlo, mhi, S, bnd, nt) ==
+    /\ lo - mhi <= S * (nt + 1)
+    /\ mlo - hi <= S * (nt + 1)
+    /\ 2 * F14 * (lo - mhi) <= bnd
+    /\ 2 * F14 * (mlo - hi) <= bnd
+\* ... within the integer m +- bound
+CoordOK(lo, hi, m, S, bnd, nt) == CoordOKS(lo, hi, m * S, m * S, S, bnd, nt)
 Exact(lo, hi, m, S) == lo = m * S /\ hi = m * S
 
 \* interval within m +- k/2 units  (k = 0: exact, 1: half a unit, 2: one unit)
@@ -202,21 +204,27 @@ SubseqFrom(e, o, i, k, S, bnd, nt) ==      \* greedy: e[i..] is matched by a sub
     ELSE IF o[k][5] = 1 /\ PointCoordOK(e[i], o[k], S, bnd, nt)
          THEN SubseqFrom(e, o, i + 1, k + 1, S, bnd, nt)
          ELSE SubseqFrom(e, o, i, k + 1, S, bnd, nt)
-\* static build value p (lo = hi = integer * S) against observed q
+\* static build value p (an interval too: implied on-curve points are half-integers) against observed q
 OraclePointOK(p, q, def, S, bnd, nt) ==
     IF def = 1 THEN SamePos(p, q)
-    ELSE /\ p[1] = p[2] /\ p[3] = p[4] /\ p[1] % S = 0 /\ p[3] % S = 0
-         /\ CoordOK(q[1], q[2], p[1] \div S, S, bnd, nt)
-         /\ CoordOK(q[3], q[4], p[3] \div S, S, bnd, nt)
+    ELSE /\ CoordOKS(q[1], q[2], p[1], p[2], S, bnd, nt)
+         /\ CoordOKS(q[3], q[4], p[3], p[4], S, bnd, nt)
+\* one contour of the static build against the observed one: equal up to the start point (a static build drops
+\* implied on-curve points that the variable build must keep, which moves the start point of the drawn path)
+ContourRotOK(Rc, Oc, def, S, bnd, nt) ==
+    /\ Len(Rc) = Len(Oc)
+    /\ \E r \in 0..(Len(Rc) - 1) : \A k \in 1..Len(Rc) :
+          /\ Rc[((k - 1 + r) % Len(Rc)) + 1][5] = Oc[k][5]
+          /\ OraclePointOK(Rc[((k - 1 + r) % Len(Rc)) + 1], Oc[k], def, S, bnd, nt)
 OracleReport(g, a, R, O, bad, bnd) ==
     IF bad = {} THEN {}
     ELSE {Fail(g, a.l, IF a.def = 1 THEN "default-outline" ELSE "coord",
-               [contour |-> MinPair(bad)[1], point |-> MinPair(bad)[2], n |-> Cardinality(bad),
-                exp |-> R[MinPair(bad)[1]][MinPair(bad)[2]], obs |-> O[MinPair(bad)[1]][MinPair(bad)[2]], bnd |-> bnd])}
+               [contour |-> CHOOSE c \in bad : \A c2 \in bad : c <= c2, n |-> Cardinality(bad),
+                exp |-> R[CHOOSE c \in bad : \A c2 \in bad : c <= c2],
+                obs |-> O[CHOOSE c \in bad : \A c2 \in bad : c <= c2], bnd |-> bnd])}
 OracleAt2(g, a, R, O, S, bnd, nt) ==
-    IF SameShapeO(R, O)
-    THEN OracleReport(g, a, R, O,
-                      {x \in PointIdx(R) : ~OraclePointOK(R[x[1]][x[2]], O[x[1]][x[2]], a.def, S, bnd, nt)}, bnd)
+    IF Len(R) = Len(O) /\ \A c \in 1..Len(R) : Len(R[c]) = Len(O[c])
+    THEN OracleReport(g, a, R, O, {c \in 1..Len(R) : Len(R[c]) > 0 /\ ~ContourRotOK(R[c], O[c], a.def, S, bnd, nt)}, bnd)
     ELSE {Fail(g, a.l, "note-structure-differs-from-static", [static |-> Len(R), font |-> Len(O)])}
          \cup (IF a.on = <<>> THEN {}
                ELSE IF Len(a.on) # Len(O) THEN {Fail(g, a.l, "structure", [exp |-> a.on, obs |-> O])}
@@ -369,8 +377,9 @@ Mix3(h, a, b) == Mix(Mix(h, a), b)
 \* ---- shapes: contours of <<x, y, typ>>, typ 0 off-curve, 1 line, 2 qcurve, 3 curve (UFO point order)
 ShapeLine == << << <<60, 0, 1>>, <<260, 0, 1>>, <<460, 0, 1>>, <<460, 350, 1>>, <<460, 700, 1>>, <<60, 700, 1>> >>,
                 << <<160, 100, 1>>, <<360, 100, 1>>, <<260, 500, 1>> >> >>
-ShapeQuad == << << <<250, 0, 2>>, <<450, 0, 0>>, <<450, 350, 2>>, <<450, 700, 0>>,
-                   <<250, 700, 2>>, <<50, 700, 0>>, <<50, 350, 2>>, <<50, 0, 0>> >> >>
+\* (the third on-curve point is the exact midpoint of its neighbours: an implied point where the masters agree)
+ShapeQuad == << << <<240, 0, 2>>, <<450, 0, 0>>, <<450, 340, 2>>, <<450, 700, 0>>,
+                   <<250, 700, 2>>, <<50, 700, 0>>, <<50, 360, 2>>, <<50, 0, 0>> >> >>
 ShapeCubic == << << <<100, 0, 1>>, <<300, 0, 1>>, <<410, 0, 0>>, <<500, 150, 0>>, <<500, 350, 3>>,
                     <<500, 550, 0>>, <<410, 700, 0>>, <<300, 700, 3>>, <<100, 700, 1>> >> >>
 
